@@ -269,20 +269,21 @@ def runFromV {Obj : Type} (sh : Shape) (cd : Codec Obj) (key : String) : St → 
 def runV {Obj : Type} (sh : Shape) (cd : Codec Obj) (key : String) (objs : List Obj) : List Out :=
   (runFromV sh cd key {} objs).2
 
-/-- canonical text of the extracted shapes for the `good` model -/
+/-- canonical (normalised, see extract/normalise.go) text of the extracted shapes for the `good`
+model: roles instead of identifier names, constants by value, operands ordered -/
 def canonicalHandshakeChain : List (String × String) :=
-  [("req.Version < MinIPCVersion || req.Version > MaxIPCVersion", "error:unsupportedIPCVersion"),
-   ("client.version != 0", "error:duplicateHandshake"),
-   ("else", "assign:client.version=req.Version")]
+  [(s!"$req.Version < {minIPCVersion} || $req.Version > {maxIPCVersion}", "error:Unsupported IPC version"),
+   ("$client.version != 0", "error:Handshake already performed"),
+   ("else", "assign:$client.version=$req.Version")]
 
 def canonicalAuthChain : List (String × String) :=
-  [("req.AuthKey == i.authKey", "assign:client.didAuth=true"), ("else", "error:invalidAuthToken")]
+  [("$ipc.authKey == $req.AuthKey", "assign:$client.didAuth=true"), ("else", "error:Invalid authentication token")]
 
 def canonicalHandshakeGate : String × String × Bool :=
-  ("command != handshakeCommand && client.version == 0", "Handshake required", true)
+  ("$client.version == 0 && $command != \"handshake\"", "Handshake required", true)
 
 def canonicalAuthGate : String × String × Bool :=
-  ("i.authKey != \"\" && !client.didAuth && command != authCommand && command != handshakeCommand", "Authentication required", false)
+  ("!$client.didAuth && $command != \"auth\" && $command != \"handshake\" && $ipc.authKey != \"\"", "Authentication required", false)
 
 /-- the shape the extracted chains denote -/
 def shapeOf (hsChain authChain : List (String × String)) : Shape :=
@@ -290,10 +291,10 @@ def shapeOf (hsChain authChain : List (String × String)) : Shape :=
 
 /-- the dispatch table of the source agrees with `cmdInfo` (every command other than
 handshake/auth) and handshake/auth decode a body and send none -/
-def dispatchAgrees (rows : List (String × String × Bool × Bool)) : Bool :=
+def dispatchAgrees (rows : List (String × Bool × Bool)) : Bool :=
   rows.all (fun r =>
-    if r.1 == "handshake" || r.1 == "auth" then r.2.2.1 && !r.2.2.2
-    else cmdInfo r.1 == some (r.2.2.1, r.2.2.2)) &&
+    if r.1 == "handshake" || r.1 == "auth" then r.2.1 && !r.2.2
+    else cmdInfo r.1 == some (r.2.1, r.2.2)) &&
   ["event", "force-leave", "join", "members", "members-filtered", "stream", "monitor", "stop", "leave", "install-key",
    "use-key", "remove-key", "list-keys", "tags", "query", "respond", "stats", "get-coordinate", "handshake", "auth"].all
     (fun c => rows.any (·.1 == c)) &&
